@@ -8,7 +8,7 @@
 (* the specification says git does (transcription audit).                     *)
 EXTENDS Discover, TraceIO
 CONSTANTS Who,
-          BugIncl, BugSkip   \* judge against a named defective design (classification of rejections only)
+          BugIncl, BugSkip, BugDotGit   \* judge against a named defective design (classification of rejections only)
 
 Range(s) == { s[i] : i \in 1..Len(s) }
 
@@ -20,7 +20,7 @@ Next == l <= NRec /\ l' = l + 1 /\ fsv' = FsAt(l + 1)
 Spec == Init /\ [][Next]_<<l, fsv>>
 
 JudgeQ(fs, q) ==
-  LET r == Discover(fs, q.cwd, q.start, q.ceil, BugIncl, BugSkip) IN
+  LET r == Discover(fs, q.cwd, q.start, q.ceil, [incl |-> BugIncl, skip |-> BugSkip, dotgit |-> BugDotGit]) IN
   /\ q.found = r.found
   /\ r.found => /\ q.gitdir = r.gitdir
                 /\ q.worktree = (IF Who = "git" THEN GitWorktree(r) ELSE GixWorktree(fs, r))
